@@ -117,7 +117,10 @@ where
                                     println!("unexpected escape character");
                                 }
                             } else if char == "%" {
+                                // Select other charset: the final character
+                                // belongs to the sequence and is not text.
                                 // self.select_other_charset(yield_!(None));
+                                let _ = co.yield_(None);
                             } else if "()".contains(&char) {
                                 let _code = co.yield_(None);
                                 if parser_state_cloned.lock().unwrap().use_utf8 {
@@ -240,7 +243,10 @@ where
                                     println!("unexpected escape character");
                                 }
                             } else if char == "%" {
+                                // Select other charset: the final character
+                                // belongs to the sequence and is not text.
                                 // self.select_other_charset(yield_!(None));
+                                let _ = co.yield_(None);
                             } else if "()".contains(&char) {
                                 let _code = co.yield_(None);
                                 if parser_state_cloned.lock().unwrap().use_utf8 {
